@@ -265,4 +265,21 @@ theorem C11_sched_wake_is_handoff (s : State) (p : Park) (w : Nat) (h : wakeOf s
        (∃ x r, p = .gCancelS x r ∧ act = .cancel x)) :=
   wakeOf_is_handoff s p w h
 
+/-- an unresolved item pins its key: the key is in the map (reported by `keys_with_entries_or_locked`, counted by
+`num_entries_or_locked` and by the soft limit) for as long as the item is unresolved — also when the key has no value and nobody
+else refers to it (the placeholder that only a never-polled stream item keeps alive) -/
+theorem C11_item_key_counted (kind : Kind) (cs : List Call) (sid : Nat) (st : StreamSt) (w : Nat) :
+    let a := cs.foldl (fun a c => (a.exec c).1) (Api.init kind)
+    (sid, st) ∈ a.streams → w ∈ st.items → keyOf a.s w ∈ a.s.order ∧ (keys a.s).2 = .list a.s.order := by
+  intro a hm hw
+  have hi := C11_bookkeeping_exact kind cs
+  obtain ⟨wd, hwd, _⟩ := (hi.sok.each _ hm).item w hw
+  refine ⟨?_, ?_⟩
+  · have := hi.inv.live w wd hwd
+    unfold keyOf; rw [hwd]
+    apply (hi.inv.keys wd.key).2
+    intro e; rw [e] at this; simp at this
+  · have hw' : a.s.wedged = false := hi.inv.notWedged
+    unfold keys; rw [hw']; rfl
+
 end Lockable
